@@ -167,11 +167,18 @@ fn txid(ch: &mut Choices) -> mp::txsubmission::EraTxId {
 fn peer_addr(ch: &mut Choices) -> mp::peersharing::PeerAddress {
     let port = *ch.pick("addr.port", &[0u32, 3001, 65535]);
     if ch.draw("addr.v6", 2) == 1 {
-        let hi = ch.u64("addr.v6.hi") as u128;
-        let lo = ch.u64("addr.v6.lo") as u128;
+        // special address classes as well as random ones: unspecified, loopback, v4-mapped, v4-compatible, link-local
+        let (hi, lo): (u128, u128) = match ch.draw("addr.v6.class", 7) {
+            0 => (0, 0),
+            1 => (0, 1),
+            2 => (0, 0xffff_0000_0000 | ch.draw("addr.v6.mapped", 1 << 32) as u128),
+            3 => (0, ch.draw("addr.v6.compat", 1 << 32) as u128),
+            4 => (0xfe80_0000_0000_0000, ch.u64("addr.v6.lo") as u128),
+            _ => (ch.u64("addr.v6.hi") as u128, ch.u64("addr.v6.lo") as u128),
+        };
         mp::peersharing::PeerAddress::V6(std::net::Ipv6Addr::from_bits((hi << 64) | lo), port)
     } else {
-        mp::peersharing::PeerAddress::V4(std::net::Ipv4Addr::from_bits(ch.draw("addr.v4", 1 << 32) as u32), port)
+        mp::peersharing::PeerAddress::V4(std::net::Ipv4Addr::from_bits(match ch.draw("addr.v4.class", 4) { 0 => 0, 1 => u32::MAX, 2 => 0x7f000001, _ => ch.draw("addr.v4", 1 << 32) as u32 }), port)
     }
 }
 
